@@ -122,6 +122,7 @@ package types
 //@ func (*GasPool).SubGas
 //@   props C05
 //@   requires gp != nil
+//@   let g0 = uint64(*gp)
 //@   modifies *gp
 //@   ensures old(*gp) >= amount ==> result == nil && *gp == old(*gp) - amount
 //@   ensures old(*gp) < amount ==> result == ErrGasLimitReached && *gp == old(*gp)
@@ -129,6 +130,7 @@ package types
 //@ func (*GasPool).AddGas
 //@   props C05
 //@   requires gp != nil
+//@   let g0 = uint64(*gp)
 //@   panics_if *gp + amount > 18446744073709551615
 //@   modifies *gp
 //@   ensures *gp == old(*gp) + amount && result == gp
